@@ -1,1 +1,210 @@
-fn main() { eprintln!("HARNESS-ERROR C18 monitor not built yet"); std::process::exit(3); }
+//! C18 — descriptor and name types accept and print exactly the JVMS grammar they claim.
+//! Exhaustive enumeration of short strings + random long ones against an independent recogniser; Miri slice in the
+//! thorough tier. See DESIGN.md section 5 (C18).
+mod checks;
+mod gen;
+mod miri;
+mod oracle;
+mod subject;
+
+use checks::*;
+use common::{par::*, report::{finish, Meta}, *};
+use oracle::*;
+use subject::*;
+
+fn self_check() {
+    // 1. reference laws: print(recognise(s)) == s on every in-grammar string of the small slice; split/join inverse
+    let mut n_ok = 0u64;
+    for chunk in 0..chunk_count(DESC_ALPHABET.len()) {
+        for_each_in_chunk(&DESC_ALPHABET, chunk, 4, &mut |s| {
+            for k in Kind::ALL {
+                if let Ok(d) = recognise(k, s) {
+                    n_ok += 1;
+                    if print(&d) != s { harness_error(&format!("reference printer is not the inverse of the recogniser on {s:?}")); }
+                    if recognise_lenient(k, s).is_some() { harness_error("lenient recogniser reports a defect on an in-grammar string"); }
+                }
+            }
+        });
+    }
+    if n_ok < 100 { harness_error("reference recogniser accepts suspiciously few strings"); }
+    for (s, k, want) in [("I", Kind::Field, true), ("V", Kind::Field, false), ("V", Kind::Return, true), ("()V", Kind::Method, true), ("(V)V", Kind::Method, false),
+        ("Ljava/lang/Object;", Kind::Field, true), ("L;", Kind::Field, false), ("La//b;", Kind::Field, false), ("La.b;", Kind::Field, false), ("L[a;", Kind::Field, false),
+        ("[[D", Kind::Field, true), ("[", Kind::Field, false), ("(IDLjava/lang/Thread;)Ljava/lang/Object;", Kind::Method, true), ("(I", Kind::Method, false), ("()", Kind::Method, false),
+        ("II", Kind::Field, false), ("L/a;", Kind::Field, false), ("La/;", Kind::Field, false), ("L(a);", Kind::Field, true)] {
+        if recognise(k, s).is_ok() != want { harness_error(&format!("reference recogniser wrong on {s:?} as {}", k.name())); }
+    }
+    let d255 = format!("{}I", "[".repeat(255)); let d256 = format!("{}I", "[".repeat(256));
+    if recognise(Kind::Field, &d255).is_err() || recognise(Kind::Field, &d256).is_ok() { harness_error("reference recogniser wrong at the 255-dimension limit"); }
+    for (s, want) in [("a$b", Some(("a", "b"))), ("p/a$b$c", Some(("p/a$b", "c"))), ("a", None), ("$a", None), ("a$", None), ("a$b/c", None), ("a/$b", None), ("a$$b", Some(("a$", "b")))] {
+        if ref_split_inner(s) != want { harness_error(&format!("reference split wrong on {s:?}")); }
+    }
+    for (t, s, want) in [(NameType::Method, "<init>", true), (NameType::Method, "<clinit>", true), (NameType::Method, "<a>", false), (NameType::Field, "<a>", true), (NameType::Field, "", false),
+        (NameType::ObjClass, "a/b", true), (NameType::ObjClass, "a//b", false), (NameType::ObjClass, "[I", false), (NameType::ArrClass, "[I", true), (NameType::ArrClass, "[", false),
+        (NameType::ArrClass, "[La;", true), (NameType::ArrClass, "[a", false), (NameType::Class, "[[J", true), (NameType::Class, "a", true), (NameType::Class, "[V", false)] {
+        if name_in_language(t, s) != want { harness_error(&format!("reference name predicate {} wrong on {s:?}", t.name())); }
+    }
+
+    // 2. the comparison code is silent on the faithful model and flags every canary
+    let run = |sub: &dyn Subject| -> Report {
+        let mut rep = Report::new();
+        let mut st = Stats::default();
+        rep.cur = ("canary".into(), 0);
+        for chunk in 0..chunk_count(DESC_ALPHABET.len()) {
+            for_each_in_chunk(&DESC_ALPHABET, chunk, 3, &mut |s| for k in Kind::ALL { check_descriptor(sub, k, s, &mut rep, &mut st); });
+        }
+        for s in [d255.as_str(), d256.as_str(), &format!("({d255}){d255}"), &format!("({d256})V"), "(JI)[[J", "[[[La/b;", "(V)V", "(VI)V", "II", "La;;"] {
+            for k in Kind::ALL { check_descriptor(sub, k, s, &mut rep, &mut st); }
+        }
+        for d in [RefDesc::Field(RefType::new(3, Base::Prim('D'))), RefDesc::Field(RefType::new(255, Base::Obj("a/b".into()))), RefDesc::Method(vec![RefType::new(0, Base::Prim('J')), RefType::new(2, Base::Prim('I'))], None),
+            RefDesc::Return(Some(RefType::new(0, Base::Obj("x$y".into()))))] { check_write(sub, &d, &mut rep); }
+        for chunk in 0..chunk_count(NAME_ALPHABET.len()) {
+            for_each_in_chunk(&NAME_ALPHABET, chunk, 4, &mut |s| check_name_string(sub, s, &mut rep, &mut st));
+        }
+        for s in ["<init>", "<clinit>", "a$b$c", "p/q/a$b$c"] { check_name_string(sub, s, &mut rep, &mut st); }
+        rep
+    };
+    let clean = run(&Model(Fault::None));
+    if !clean.violations.is_empty() { harness_error(&format!("comparison code flags the faithful model: {:?}", clean.violations.keys().collect::<Vec<_>>())); }
+    for f in [Fault::Accept256Dims, Fault::Cap254Dims, Fault::DropDimOnWrite, Fault::AcceptTrailing, Fault::VoidAsParameter, Fault::SwapJAndI, Fault::MethodNameAllowsAngle,
+        Fault::FieldNameAllowsDot, Fault::ObjNameAllowsEmptySegment, Fault::TryFromDisagrees, Fault::SplitAtFirstDollar, Fault::JoinWithSlash, Fault::ZeroDimArray] {
+        if run(&Model(f)).violations.is_empty() { harness_error(&format!("canary {f:?} was not flagged by the comparison code")); }
+    }
+}
+
+fn harness_error(msg: &str) -> ! { eprintln!("HARNESS-ERROR C18 self-check: {msg}"); std::process::exit(3) }
+
+fn main() {
+    // anyhow would otherwise capture a backtrace per refused string when the variable is set
+    std::env::set_var("RUST_LIB_BACKTRACE", "0");
+    let mut ctx = Ctx::from_args("C18", 40, 480);
+    let replay = load_replay(&mut ctx);
+    self_check();
+    let mut rep = Report::new();
+    let real = Real;
+
+    // ---- exhaustive: descriptor alphabet
+    let dlen: usize = ctx.tier.pick(6, 7);
+    let dchunks = chunk_count(DESC_ALPHABET.len());
+    run_cases(&ctx, &replay, &mut rep, "enum-desc", dchunks, |_rng, rep, chunk| {
+        let mut st = Stats::default();
+        let mut n = 0u64;
+        for_each_in_chunk(&DESC_ALPHABET, chunk, dlen, &mut |s| {
+            n += 1;
+            for k in Kind::ALL { check_descriptor(&real, k, s, rep, &mut st); }
+            // the class-name predicates see the descriptor alphabet too (array class names need B/I/J/L)
+            for t in [NameType::Class, NameType::ArrClass, NameType::ObjClass] { check_name(&real, t, s, rep, &mut st); }
+            if rep.want_sample() && s.len() == dlen && recognise(Kind::Method, s).is_ok() {
+                let d = recognise(Kind::Method, s).ok();
+                rep.sample(|| json!({"workload": "enum-desc", "kind": "method", "input": s, "reference_structure": format!("{d:?}"), "observed": format!("{:?}", real.parse(Kind::Method, s))}));
+            }
+        });
+        st.flush("enum_desc", rep);
+        rep.add("enum_desc.strings_enumerated", n);
+        rep.count("enum_desc.chunks_completed");
+    });
+
+    // ---- exhaustive: name alphabet
+    let nlen: usize = ctx.tier.pick(6, 8);
+    let nchunks = chunk_count(NAME_ALPHABET.len());
+    run_cases(&ctx, &replay, &mut rep, "enum-names", nchunks, |_rng, rep, chunk| {
+        let mut st = Stats::default();
+        let mut n = 0u64;
+        for_each_in_chunk(&NAME_ALPHABET, chunk, nlen, &mut |s| { n += 1; check_name_string(&real, s, rep, &mut st); });
+        st.flush("enum_names", rep);
+        rep.add("enum_names.strings_enumerated", n);
+        rep.count("enum_names.chunks_completed");
+    });
+
+    // ---- random long descriptor strings (valid ones and mutations of valid ones), all three kinds on each
+    let n = ctx.tier.pick(30_000, 600_000);
+    run_cases(&ctx, &replay, &mut rep, "rand-desc", n, |rng, rep, _| {
+        let mut st = Stats::default();
+        let (s, how) = gen::descriptor_string(rng);
+        rep.count(&format!("rand_desc.made_by.{how}"));
+        let dims = s.as_bytes().iter().fold((0usize, 0usize), |(best, cur), b| if *b == b'[' { (best.max(cur + 1), cur + 1) } else { (best, 0) }).0;
+        match dims { 254 => rep.count("rand_desc.run_of_254_brackets"), 255 => rep.count("rand_desc.run_of_255_brackets"), 256 => rep.count("rand_desc.run_of_256_brackets"), d if d > 256 => rep.count("rand_desc.run_of_more_brackets"), _ => {} }
+        for k in Kind::ALL {
+            if let Ok(RefDesc::Method(ps, _)) = recognise(k, &s) {
+                let slots: usize = 1 + ps.iter().map(|p| if p.dims == 0 && matches!(p.base, Base::Prim('J') | Base::Prim('D')) { 2 } else { 1 }).sum::<usize>();
+                if slots > 255 { rep.count("rand_desc.open.method_with_more_than_255_slots_not_judged_beyond_grammar"); }
+            }
+            check_descriptor(&real, k, &s, rep, &mut st);
+        }
+        st.flush("rand_desc", rep);
+        if rep.want_sample() && s.len() < 80 && how != "valid" { rep.sample(|| json!({"workload": "rand-desc", "made_by": how, "input": s, "reference": Kind::ALL.map(|k| format!("{}: {:?}", k.name(), recognise(k, &s).map(|d| shape(&d))))})); }
+    });
+
+    // ---- random structures: write, compare with the reference printer, parse back
+    let n = ctx.tier.pick(30_000, 600_000);
+    run_cases(&ctx, &replay, &mut rep, "rand-types", n, |rng, rep, _| {
+        let d = gen::structure(rng);
+        rep.count(&format!("rand_types.{}", kind_of(&d).name()));
+        rep.nontrivial(rng::fnv(format!("t:{}", shape(&d)).as_bytes()));
+        rep.seen("descriptor_shapes", &shape(&d));
+        for t in gen::types_of(&d) {
+            match t.dims { 0 => rep.count("rand_types.dims.0"), 1 => rep.count("rand_types.dims.1"), 254 => rep.count("rand_types.dims.254"), 255 => rep.count("rand_types.dims.255"), _ => rep.count("rand_types.dims.other") }
+            if let Base::Prim(c) = t.base { rep.seen("primitives_written", &c.to_string()); }
+        }
+        check_write(&real, &d, rep);
+        if rep.want_sample() { rep.sample(|| json!({"workload": "rand-types", "structure": format!("{d:?}"), "reference_text": print(&d)})); }
+    });
+
+    // ---- random names over a rich alphabet (incl. <init>, <clinit>, unicode), split/join on valid class names
+    let n = ctx.tier.pick(30_000, 600_000);
+    run_cases(&ctx, &replay, &mut rep, "rand-names", n, |rng, rep, _| {
+        let mut st = Stats::default();
+        let s = gen::name_string(rng);
+        if s == "<init>" || s == "<clinit>" { rep.count("rand_names.special_method_name"); }
+        if !s.is_ascii() { rep.count("rand_names.non_ascii"); }
+        check_name_string(&real, &s, rep, &mut st);
+        if is_obj_class_name(&s) {
+            let inner = gen::simple_name(rng);
+            check_join(&real, &s, &inner, rep, &mut st);
+        }
+        if s.starts_with('[') { if is_arr_class_name(&s) { rep.count("rand_names.valid_array_class_name") } else { rep.count("rand_names.invalid_string_starting_with_bracket") } }
+        st.flush("rand_names", rep);
+    });
+
+    // ---- Miri slice (thorough only, bounded)
+    let mut meta = Meta::new("exploration",
+        "enumeration: every string over {B,I,J,L,V,[,;,/,(,),a,$} up to the length bound is given to all three parse() functions and the three class-name predicates; \
+         every string over {a,.,;,[,/,<,>,$} up to its bound to all seven name predicates and (when a valid object class name) to the split/join helpers; \
+         random: printed random structures (all primitives, 0/1/2/254/255 dimensions, unicode names) and mutations of them, random names. \
+         Non-trivial = string in the grammar, or outside it only because of the class name between L and ; (descriptors), valid object class name (names), \
+         distinct structure shape (random structures); distinct by (kind, string) resp. shape.");
+    if ctx.tier == Tier::Thorough && replay.is_none() {
+        let m = miri::run_slice(&ctx, &mut rep);
+        meta.extra.insert("miri_slice".into(), m);
+    } else {
+        meta.extra.insert("miri_slice".into(), json!({"status": "not run in this tier"}));
+    }
+
+    let enum_complete = rep.get("enum_desc.chunks_completed") == dchunks && rep.get("enum_names.chunks_completed") == nchunks;
+    let want_desc = count_upto(DESC_ALPHABET.len() as u64, dlen as u32);
+    let want_names = count_upto(NAME_ALPHABET.len() as u64, nlen as u32);
+    if replay.is_none() {
+        meta.exhaustive = Some(enum_complete && rep.get("enum_desc.strings_enumerated") == want_desc && rep.get("enum_names.strings_enumerated") == want_names);
+        meta.extra.insert("exhaustive_subspace".into(), json!({
+            "descriptor_alphabet": String::from_utf8_lossy(&DESC_ALPHABET), "descriptor_max_len": dlen, "descriptor_strings": rep.get("enum_desc.strings_enumerated"), "descriptor_strings_expected": want_desc,
+            "per_kind": Kind::ALL.map(|k| json!({"kind": k.name(), "strings": rep.get(&format!("enum_desc.{}.strings", k.name())), "in_grammar": rep.get(&format!("enum_desc.{}.in_grammar", k.name())),
+                "accepted_by_parse": rep.get(&format!("enum_desc.{}.accepted_by_parse", k.name())), "verdict_agrees": rep.get(&format!("enum_desc.{}.verdict_agrees", k.name()))})),
+            "name_alphabet": String::from_utf8_lossy(&NAME_ALPHABET), "name_max_len": nlen, "name_strings": rep.get("enum_names.strings_enumerated"), "name_strings_expected": want_names,
+            "per_name_type": NameType::ALL.map(|t| json!({"type": t.name(), "strings": rep.get(&format!("enum_names.{}.strings", t.name())), "in_language": rep.get(&format!("enum_names.{}.in_language", t.name())),
+                "verdict_agrees": rep.get(&format!("enum_names.{}.verdict_agrees", t.name()))})),
+        }));
+        meta.oblige("the descriptor enumeration ran to completion (all chunks, expected number of strings)", rep.get("enum_desc.chunks_completed") == dchunks && rep.get("enum_desc.strings_enumerated") == want_desc);
+        meta.oblige("the name enumeration ran to completion", rep.get("enum_names.chunks_completed") == nchunks && rep.get("enum_names.strings_enumerated") == want_names);
+        for k in Kind::ALL { meta.oblige(format!("{} descriptors: in-grammar strings were enumerated", k.name()), rep.get(&format!("enum_desc.{}.in_grammar", k.name())) >= 50); }
+        meta.oblige("strings with runs of exactly 254, 255 and 256 '[' were parsed", rep.get("rand_desc.run_of_254_brackets") > 0 && rep.get("rand_desc.run_of_255_brackets") > 0 && rep.get("rand_desc.run_of_256_brackets") > 0);
+        meta.oblige("structures with 254 and 255 dimensions were written", rep.get("rand_types.dims.254") > 0 && rep.get("rand_types.dims.255") > 0);
+        meta.oblige("all eight primitive types were written", rep.seen_n("primitives_written") == 8);
+        meta.oblige("<init>/<clinit> were given to the name predicates", rep.get("rand_names.special_method_name") > 0);
+        meta.oblige("valid array class names and invalid strings starting with [ were given to the class-name predicates", rep.get("rand_names.valid_array_class_name") > 0 && rep.get("rand_names.invalid_string_starting_with_bracket") > 0);
+        meta.oblige("inner-class split answered both Some and None", rep.get("enum_names.split.some") > 0 && rep.get("enum_names.split.none") > 0);
+    }
+    let meta = meta
+        .assume("strings are UTF-8 (JavaStr values with unpaired surrogates are not generated)")
+        .assume("JVMS 4.3.3's limit of 255 parameter slots is a validity rule outside the descriptor grammar; parse() is not required to enforce it (counted only)")
+        .assume("split/join inverse law join->split is claimed only for inner names without $ and /");
+    std::process::exit(finish(&ctx, rep, meta));
+}
